@@ -477,3 +477,48 @@ V_HARNESS(h_c17_haystack)
   vbi_search_delete(S);
   V_END();
 }
+
+/* ------------------------------------------------------------------ continuation positions left by highlight() */
+
+/* highlight(s, vtp, first, ms, me) is called with the match [ms, me) (offsets relative to `first') and must leave
+ *   (row[0], col[0]) = the first cell at or behind the end of the match: where a forward search continues (search_page_fwd starts
+ *                      its text at that cell), LAST_ROW + 1 / 0 when the match ends with the page;
+ *   (row[1], col[1]) = the cell the match starts in: where a backward search stops (search_page_rev takes the cells strictly
+ *                      before it), so that the occurrence just returned is not found again;
+ *   start_pgno/subno = the page.
+ * Page: 25 x 41, every cell NORMAL_SIZE (one haystack character per cell, 40 per row + separator): offset of cell (i, j) is
+ * (i - 1) * 41 + j.  ms, me symbolic.
+ * KNOWN_C17_HIGHLIGHT_ROW1 (TODO-defect-candidates.md item 9): a match that begins in the very first cell (ms == 0) leaves row[1] /
+ * col[1] at their old values (they are only written for cells in front of the match): the next backward call searches the whole
+ * page again, finds the same occurrence and returns the same page for ever.  With the define ms > 0 is assumed. */
+V_HARNESS(h_c17_highlight)
+{
+  static ucs2_t pattern[2] = { 'a', 0 };
+  unsigned long ms, me; int er0, ec0, r1_0, c1_0;
+  V_INIT();
+  ms = in_u16(); me = in_u16(); r1_0 = in_u8(); c1_0 = in_u8();
+  V_ASSUME(ms < me && me <= (unsigned long) HAYLEN);
+  V_ASSUME(ms % ROWLEN != 40);			/* a match begins with a character, not with a row separator */
+#ifdef KNOWN_C17_HIGHLIGHT_ROW1
+  V_ASSUME(ms > 0);
+#endif
+  U[0].pgno = 0x1AB; U[0].subno = 0x12; U[0].lop = 1; PRESENT[0] = 1;
+  CP[0].pgno = U[0].pgno; CP[0].subno = U[0].subno; CP[0].function = PAGE_FUNCTION_LOP;
+  S = vbi_search_new(&VBI, 0x100, 0, pattern, FALSE, TRUE, NULL);
+  V_ASSERT(S != NULL, "search_new_succeeds");
+  c17_page_geometry();
+  S->row[1] = r1_0; S->col[1] = c1_0;		/* whatever an earlier call left */
+
+  highlight(S, &CP[0], S->haystack, (long) ms, (long) me);
+
+  V_ASSERT(S->start_pgno == 0x1AB && S->start_subno == 0x12, "highlight_remembers_the_page");
+  if (me % ROWLEN == 40) { er0 = 2 + (int) (me / ROWLEN); ec0 = 0; } else { er0 = 1 + (int) (me / ROWLEN); ec0 = (int) (me % ROWLEN); }
+  if (er0 >= LAST_ROW) { er0 = LAST_ROW + 1; ec0 = 0; }
+  V_ASSERT(S->row[0] == er0 && S->col[0] == ec0, "forward_continuation_is_the_first_cell_behind_the_match");
+  V_ASSERT(S->row[1] == 1 + (int) (ms / ROWLEN) && S->col[1] == (int) (ms % ROWLEN), "backward_continuation_is_the_cell_the_match_starts_in");
+  if (ms == 0) V_REACH("match_in_first_cell");
+  if (er0 > LAST_ROW) V_REACH("match_ends_with_page");
+  vbi_search_delete(S);
+  V_END();
+}
+
